@@ -150,10 +150,10 @@ def _eig_tol(A):
     return dict(rtol=t, atol=t)
 
 
-def _mk(A, directed, W=None):
+def _mk(A, directed, W=None, w=None):
     from pyunicorn.core import Network
     net = Network(adjacency=np.array(A, dtype=np.int8), directed=directed,
-                  silence_level=3)
+                  node_weights=w, silence_level=3)
     if W is not None:
         net.set_link_attribute("w", np.array(W, dtype=float))
     return net
@@ -290,7 +290,7 @@ def _check_clust(acc, net, A, directed, nodes=None):
                   G.motif_clustering(A, kind), disc=_disc_motif(A, kind))
 
 
-def _check_cliq(acc, net, A, directed):
+def _check_cliq(acc, net, A, directed, big=False):
     if directed:
         acc.ex("local_cliquishness/higher_order_transitivity/"
                "weighted_local_clustering: undirected graphs only", 6)
@@ -309,14 +309,15 @@ def _check_cliq(acc, net, A, directed):
         Wf = [[float(x) for x in row] for row in A]
         acc.check("weighted_local_clustering[0/1]",
                   lambda: Network.weighted_local_clustering(Wf),
-                  G.weighted_local_clustering(Wf))
+                  G.np_weighted_local_clustering(Wf) if big
+                  else G.weighted_local_clustering(Wf))
 
 
-def _check_path(acc, net, A, directed, W=None, lv=True):
+def _check_path(acc, net, A, directed, W=None, lv=True, big=False):
     n = len(A)
     suffix = "" if W is None else "[attr]"
     arg = () if W is None else ("w",)
-    D = G.path_lengths(A, W)
+    D = G.np_path_lengths(A, W).tolist() if big else G.path_lengths(A, W)
     got = acc.check("path_lengths" + suffix, lambda: net.path_lengths(*arg),
                     D)
     acc.check("average_path_length" + suffix,
@@ -352,11 +353,16 @@ def _check_path(acc, net, A, directed, W=None, lv=True):
                               "measures", acc.desc, again, D))
 
 
-def _check_betw(acc, net, A, directed):
+def _check_betw(acc, net, A, directed, big=False):
     n = len(A)
-    paths = G.all_shortest_paths(A)
-    acc.check("betweenness", net.betweenness,
-              G.betweenness(A, directed, paths))
+    if big:      # same definitions, vectorised over the pairs
+        D, Sg = G.np_sigma(A)
+        paths = None
+        bexp = G.np_betweenness(D, Sg, directed)
+    else:
+        paths = G.all_shortest_paths(A)
+        bexp = G.betweenness(A, directed, paths)
+    acc.check("betweenness", net.betweenness, bexp)
     if directed:
         acc.ex("interregional/link betweenness: undirected graphs only "
                "(kernel asserts symmetric link list)", 3)
@@ -365,8 +371,10 @@ def _check_betw(acc, net, A, directed):
         acc.check("interregional_betweenness",
                   lambda S=S, T=T: net.interregional_betweenness(
                       sources=S, targets=T),
+                  G.np_betweenness(D, Sg, False, S, T) if big else
                   G.interregional_betweenness(A, S, T, paths))
-    lb = G.link_betweenness(A, paths)
+    lb = G.np_link_betweenness(A, D, Sg) if big else \
+        G.link_betweenness(A, paths)
     acc.check("link_betweenness", net.link_betweenness, lb)
     acc.check("edge_betweenness", net.edge_betweenness, lb)
 
@@ -381,13 +389,14 @@ def _check_rw(acc, net, A, directed):
               G.arenas_betweenness(A), tol=RW)
 
 
-def _check_misc(acc, net, A, directed):
+def _check_misc(acc, net, A, directed, big=False):
     acc.check("coreness", net.coreness, G.coreness(A, directed))
     if directed:
         acc.ex("matching_index: 'common neighbours' not defined for "
                "directed graphs")
     else:
-        acc.check("matching_index", net.matching_index, G.matching_index(A))
+        acc.check("matching_index", net.matching_index,
+                  G.np_matching_index(A) if big else G.matching_index(A))
 
 
 def _check_spec(acc, net, A, directed, W=None):
@@ -405,8 +414,27 @@ def _check_spec(acc, net, A, directed, W=None):
     if n < 3:
         acc.ex("eigenvector_centrality: ARPACK needs N > 2")
         return
-    acc.check("eigenvector_centrality", net.eigenvector_centrality,
-              G.eigenvector_centrality(A), tol=_eig_tol(A), sig=False)
+    tol = _eig_tol(A)
+    x = acc.check("eigenvector_centrality", net.eigenvector_centrality,
+                  G.eigenvector_centrality(A), tol=tol, sig=False)
+    if x is not None:
+        M = np.array(A, dtype=float)
+        _check_eigvec(acc, "eigenvector_centrality", M,
+                      float(np.linalg.eigvalsh(M).max()),
+                      np.asarray(x, dtype=float), tol)
+
+
+def _check_eigvec(acc, name, M, lam, x, tol):
+    """Definition without reference vector: M x = lambda_max x, x > 0 (Perron;
+    matters on bipartite graphs where -lambda_max is an eigenvalue too),
+    max(x) = 1."""
+    t = dict(rtol=0.0, atol=tol["atol"] * max(1.0, lam) * 4)
+    acc.check(name + "[M x - lambda_max x]", lambda: M @ x - lam * x,
+              [0.0] * len(x), tol=t, sig=False)
+    # (entries smaller than the solver accuracy may come out as -0)
+    acc.check(name + "[x > 0, max = 1]",
+              lambda: [float(x.min() > -tol["atol"]), float(x.max())],
+              [1.0, 1.0], tol=dict(rtol=0.0, atol=1e-9), sig=False)
 
 
 def _check_nsi(acc, net, A, directed):
@@ -485,6 +513,75 @@ def _check_nsi(acc, net, A, directed):
         acc.ex("spectral centralities: graph not (strongly) connected")
 
 
+def _check_nsi_w(acc, net, A, directed, w, rw=True):
+    """n.s.i. measures with unequal node weights against their weighted
+    definitions (refmodel: nsi_w*)."""
+    n = len(A)
+    w = np.asarray(w, dtype=float)
+    W = float(w.sum())
+    r = G.nsi_w(A, w)
+    for nm in ("degree", "indegree", "outdegree", "bildegree"):
+        acc.check("nsi_%s[w]" % nm, getattr(net, "nsi_" + nm), r[nm])
+        acc.check("nsi_%s[w,tw=2]" % nm,
+                  lambda nm=nm: getattr(net, "nsi_" + nm)(
+                      typical_weight=2.0), r[nm] / 2.0 - 1.0)
+    for kind in G.MOTIFS:
+        acc.check("nsi_local_%smotif_clustering[w]" % kind,
+                  getattr(net, "nsi_local_%smotif_clustering" % kind),
+                  r[kind])
+    D = G.np_path_lengths(A)
+    pw = G.nsi_w_paths(D, w)
+    for nm in ("average_path_length", "closeness", "harmonic_closeness",
+               "exponential_closeness", "global_efficiency"):
+        acc.check("nsi_%s[w]" % nm, getattr(net, "nsi_" + nm), pw[nm])
+    if directed:
+        acc.ex("n.s.i. measures documented for undirected networks only", 12)
+        return
+    acc.check("nsi_average_neighbors_degree[w]",
+              net.nsi_average_neighbors_degree,
+              r["average_neighbors_degree"])
+    acc.check("nsi_max_neighbors_degree[w]", net.nsi_max_neighbors_degree,
+              r["max_neighbors_degree"])
+    acc.check("nsi_laplacian[w]", net.nsi_laplacian, r["laplacian"])
+    lc = acc.check("nsi_local_clustering[w]", net.nsi_local_clustering,
+                   r["local_clustering"])
+    if lc is not None:
+        acc.check("nsi_global_clustering[w]", net.nsi_global_clustering,
+                  float(np.dot(np.asarray(lc, dtype=float), w) / W))
+    acc.check("nsi_transitivity[w]", net.nsi_transitivity, r["transitivity"])
+    Dw_, Sw_ = G.np_sigma(A, w)
+    acc.check("nsi_betweenness[w]", net.nsi_betweenness,
+              G.np_betweenness(Dw_, Sw_, False, w=w, ordered=True))
+    for (S, T) in _patterns(n)[1:3]:
+        acc.check("nsi_interregional_betweenness[w]",
+                  lambda S=S, T=T: net.nsi_interregional_betweenness(S, T),
+                  G.np_betweenness(Dw_, Sw_, False, S, T, w=w))
+    if G.is_connected(A) and n >= 3:
+        tol = _eig_tol(G.plus(A))
+        ev, lam = G.nsi_w_eigenvector_centrality(A, w)
+        x = acc.check("nsi_eigenvector_centrality[w]",
+                      net.nsi_eigenvector_centrality, ev, tol=tol, sig=False)
+        if x is not None:
+            _check_eigvec(acc, "nsi_eigenvector_centrality[w]",
+                          np.array(G.plus(A), dtype=float) * w[None, :],
+                          lam, np.asarray(x, dtype=float), tol)
+    else:
+        acc.ex("spectral centralities: graph not (strongly) connected")
+    if rw:
+        acc.check("nsi_arenas_betweenness[w]", net.nsi_arenas_betweenness,
+                  G.nsi_w_arenas_betweenness(A, w), tol=RW)
+        acc.check("nsi_arenas_betweenness[w,exclude_neighbors=False]",
+                  lambda: net.nsi_arenas_betweenness(exclude_neighbors=False),
+                  G.nsi_w_arenas_betweenness(A, w, exclude_neighbors=False),
+                  tol=RW)
+        acc.check("nsi_newman_betweenness[w]", net.nsi_newman_betweenness,
+                  G.nsi_w_newman_betweenness(A, w), tol=RW)
+        acc.check("nsi_newman_betweenness[w,add_local_ends]",
+                  lambda: net.nsi_newman_betweenness(add_local_ends=True),
+                  G.nsi_w_newman_betweenness(A, w, add_local_ends=True),
+                  tol=RW)
+
+
 def _check_all(acc, A, directed, groups):
     net = _mk(A, directed)
     if "deg" in groups:
@@ -507,9 +604,19 @@ def _check_all(acc, A, directed, groups):
         _check_nsi(acc, net, A, directed)
 
 
-def _check_weighted(acc, A, directed, W):
+def _check_weighted(acc, A, directed, W, w=None, big=False):
     from pyunicorn.core import Network
-    net = _mk(A, directed, W)
+    net = _mk(A, directed, W, w)
+    # the attribute matrix as the library hands it to the strength, motif
+    # and Holme formulas; if it is already wrong that is the one finding and
+    # the derived measures are held to what the library reports here
+    la = acc.check("link_attribute", lambda: net.link_attribute("w"), W)
+    W0 = W
+    if la is not None and np.shape(la) == np.shape(W) and \
+            not np.array_equal(np.asarray(la, dtype=float),
+                               np.array(W, dtype=float)):
+        W = np.asarray(la, dtype=float).tolist()
+        la = None
     acc.check("degree[key]", lambda: net.degree("w"),
               G.degree(A, directed, W))
     acc.check("indegree[key]", lambda: net.indegree("w"), G.indegree(A, W))
@@ -517,23 +624,32 @@ def _check_weighted(acc, A, directed, W):
               G.outdegree(A, W))
     acc.check("bildegree[key]", lambda: net.bildegree("w"),
               G.bildegree(A, W))
+    if w is None:
+        nin, nout = G.indegree(A, W), G.outdegree(A, W)
+    else:       # n.s.i. strengths: sum_j w_j W_ji  /  sum_j W_ij w_j
+        Wn, wn = np.array(W, dtype=float), np.asarray(w, dtype=float)
+        nin, nout = (wn @ Wn).tolist(), (Wn @ wn).tolist()
     acc.check("nsi_degree[key]", lambda: net.nsi_degree("w"),
-              G.degree(A, directed, W))
-    acc.check("nsi_indegree[key]", lambda: net.nsi_indegree("w"),
-              G.indegree(A, W))
-    acc.check("nsi_outdegree[key]", lambda: net.nsi_outdegree("w"),
-              G.outdegree(A, W))
+              [a + b for a, b in zip(nin, nout)] if directed else nin)
+    acc.check("nsi_indegree[key]", lambda: net.nsi_indegree("w"), nin)
+    acc.check("nsi_outdegree[key]", lambda: net.nsi_outdegree("w"), nout)
     for kind in G.MOTIFS:
+        if la is None:
+            acc.ex("weighted motif clustering: link_attribute already "
+                   "reported wrong (or raising) on this graph")
+            continue
         acc.check("local_%smotif_clustering[key]" % kind,
                   lambda kd=kind: getattr(
                       net, "local_%smotif_clustering" % kd)("w"),
                   G.motif_clustering(A, kind, W))
-    _check_path(acc, net, A, directed, W)
+    W = W0          # paths and PageRank read the attribute from the graph
+    _check_path(acc, net, A, directed, W, lv=not big, big=big)
     _check_spec(acc, net, A, directed, W)
     if not directed:
         acc.check("weighted_local_clustering",
                   lambda: Network.weighted_local_clustering(W),
-                  G.weighted_local_clustering(W))
+                  G.np_weighted_local_clustering(W) if big
+                  else G.weighted_local_clustering(W))
 
 
 # ---------------------------------------------------------------------------
@@ -730,6 +846,149 @@ NAMED = {
     "hub1292+K4": (lambda: _hub(1292, 4), False, ("cliq45",), True),
     "K183": (lambda: _complete(183), False, ("motif3",), True),
 }
+
+
+# ---------------------------------------------------------------------------
+# scale: larger structured inputs just above the internal thresholds of the
+# implementation (component sizes 9 / 11-12 / 15 / 23 of the random-walk
+# betweennesses, N >= 21 of the iterative eigen-solver incl. bipartite graphs,
+# N > 128 / > 256 row blocks, N >= 182 where i*N+j leaves int16), always with
+# unequal node weights; judged by the same definitions (vectorised)
+
+
+def _node_weights(n):
+    return [(0.5, 1.0, 1.5, 2.0, 2.5)[(7 * i + 3) % 5] for i in range(n)]
+
+
+def _tree(n, arity):
+    A = _empty(n)
+    for i in range(1, n):
+        _link(A, i, (i - 1) // arity)
+    return A
+
+
+def _relabel(A, g):
+    """node i becomes (i * g) mod n: interleaves the labels of components"""
+    n = len(A)
+    B = _empty(n)
+    for i in range(n):
+        for j in range(n):
+            if A[i][j]:
+                B[(i * g) % n][(j * g) % n] = 1
+    return B
+
+
+def _ring_chords(n, step, directed=False):
+    """ring + a chord of length `step` from every third node (every second of
+    them reciprocated in the directed case) + links at the highest labels"""
+    A = _empty(n)
+
+    def put(i, j, both):
+        A[i][j] = 1
+        if both:
+            A[j][i] = 1
+    for i in range(n):
+        put(i, (i + 1) % n, not directed)
+        if i % 3 == 0:
+            put(i, (i + step) % n, (not directed) or i % 6 == 0)
+    put(n - 1, n // 2, not directed)
+    put(n - 1, n - 3, not directed)
+    put(1, n - 2, not directed)
+    return A
+
+
+def _scale_attr(A, directed):
+    vals = (0.5, 1.0, 2.0, 1.5, 0.25, 3.0)
+    n = len(A)
+    W = [[0.0] * n for _ in range(n)]
+    for i in range(n):
+        for j in range(n):
+            if A[i][j]:
+                a, b = (i, j) if directed else (min(i, j), max(i, j))
+                W[i][j] = vals[(3 * a + 5 * b + 1) % 6]
+    return W
+
+
+_SMALLG = ("deg", "clust", "cliq", "path", "lv", "betw", "rw", "misc",
+           "spec", "nsiw", "nsiw-rw")
+_BIGG = ("deg", "clust", "cliq", "path", "betw", "misc", "spec", "nsiw")
+SCALE = {
+    # name: (builder, directed, groups, thorough_only)
+    "P9": (lambda: _path(9), False, _SMALLG, False),
+    "C11+K1": (lambda: _relabel(_union(_cycle(11), _empty(1)), 5), False,
+               _SMALLG, False),
+    "tree12": (lambda: _tree(12, 3), False, _SMALLG, False),
+    "grid3x5": (lambda: _grid(3, 5), False, _SMALLG, False),
+    "P21": (lambda: _path(21), False, _SMALLG, False),
+    "S21": (lambda: _star(21), False, _SMALLG, False),
+    "K7,14": (lambda: _multipartite(7, 14), False, _SMALLG, False),
+    "tree23": (lambda: _tree(23, 2), False, _SMALLG, False),
+    "C23+chords": (lambda: _ring_chords(23, 5), False, _SMALLG, False),
+    "P25": (lambda: _path(25), False, _SMALLG, False),
+    "grid3x11": (lambda: _grid(3, 11), False, _SMALLG, False),
+    "S34": (lambda: _star(34), False, _SMALLG, False),
+    "P9+C11+tree15+2K1": (lambda: _relabel(_union(
+        _path(9), _cycle(11), _tree(15, 2), _empty(2)), 7), False, _SMALLG,
+        False),
+    "C23+grid4x6+W11+2K1": (lambda: _relabel(_union(
+        _ring_chords(23, 4), _grid(4, 6), _wheel(11), _empty(2)), 7), False,
+        _SMALLG, False),
+    "ring23-directed": (lambda: _ring_chords(23, 5, True), True, _SMALLG,
+                        False),
+    "ring150": (lambda: _ring_chords(150, 7), False, _BIGG, False),
+    "ring150-directed": (lambda: _ring_chords(150, 7, True), True, _BIGG,
+                         False),
+    "ring209": (lambda: _ring_chords(209, 11), False, _BIGG, False),
+    "ring300": (lambda: _ring_chords(300, 13), False, _BIGG, False),
+    "ring300-directed": (lambda: _ring_chords(300, 13, True), True, _BIGG,
+                         True),
+    "ring60/random-walk": (lambda: _ring_chords(60, 7), False,
+                           ("rw", "nsiw", "nsiw-rw"), False),
+    "ring150/random-walk": (lambda: _ring_chords(150, 7), False,
+                            ("rw", "nsiw", "nsiw-rw"), True),
+    "ring182[attr]": (lambda: _ring_chords(182, 9), False, ("attr",), False),
+    "ring200-directed[attr]": (lambda: _ring_chords(200, 9, True), True,
+                               ("attr",), False),
+    "ring260[attr]": (lambda: _ring_chords(260, 11), False, ("attr",),
+                      False),
+    "ring300-directed[attr]": (lambda: _ring_chords(300, 13, True), True,
+                               ("attr",), True),
+}
+
+
+def fam_scale(case):
+    name = case
+    build, directed, groups, _ = SCALE[name]
+    A = build()
+    n = len(A)
+    w = _node_weights(n)
+    big = n > 40
+    acc = Acc(_tag(directed) + "-scale", "scale graph %s (%d nodes, unequal "
+              "node weights)" % (name, n))
+    if groups == ("attr",):
+        _check_weighted(acc, A, directed, _scale_attr(A, directed), w=w,
+                        big=True)
+        return acc.result(trivial=False)
+    net = _mk(A, directed, w=w)
+    if "deg" in groups:
+        _check_deg(acc, net, A, directed)
+    if "clust" in groups:
+        _check_clust(acc, net, A, directed)
+    if "cliq" in groups:
+        _check_cliq(acc, net, A, directed, big=big)
+    if "path" in groups:
+        _check_path(acc, net, A, directed, lv="lv" in groups, big=big)
+    if "betw" in groups:
+        _check_betw(acc, net, A, directed, big=big)
+    if "rw" in groups:
+        _check_rw(acc, net, A, directed)
+    if "misc" in groups:
+        _check_misc(acc, net, A, directed, big=big)
+    if "spec" in groups:
+        _check_spec(acc, net, A, directed)
+    if "nsiw" in groups:
+        _check_nsi_w(acc, net, A, directed, w, rw="nsiw-rw" in groups)
+    return acc.result(trivial=False)
 
 
 # ---------------------------------------------------------------------------
@@ -941,8 +1200,8 @@ def fam_selftest(case):
 
 
 FAMILIES = {"und": fam_und, "dir": fam_dir, "wund": fam_wund,
-            "wdir": fam_wdir, "named": fam_named, "extra": fam_extra,
-            "selftest": fam_selftest}
+            "wdir": fam_wdir, "named": fam_named, "scale": fam_scale,
+            "extra": fam_extra, "selftest": fam_selftest}
 
 
 # ---------------------------------------------------------------------------
@@ -1045,6 +1304,11 @@ def run(ctx):
     # --- structured graphs
     names = [k for k, v in NAMED.items() if thorough or v[3]]
     ctx.explore("named", names, chunk=1, desc="fixed structured graphs")
+    # --- scale
+    scale = [k for k, v in SCALE.items() if thorough or not v[3]]
+    ctx.explore("scale", scale, chunk=1, desc="larger structured graphs just "
+                "above the implementation's size thresholds, unequal node "
+                "weights")
     # --- extras
     extra = []
     if ctx.seed:
@@ -1068,6 +1332,7 @@ def run(ctx):
         "directed_iso_n": None if thorough else 4,
         "attribute_values": list(ATTR_VALUES),
         "structured": names,
+        "scale": scale,
         "extra": {"seed": ctx.seed, "cases": extra,
                   "note": "seeded G(n,p); not exhaustive coverage"},
         "N=1": "not enumerated: Network cannot be constructed "
